@@ -87,6 +87,10 @@ def response_recipes():
     add("PlainText(empty,204)", lambda i, e: pkg(i).PlainTextResponse("", 204), 0)
     add("PlainText(latin-1 charset)", lambda i, e: pkg(i).PlainTextResponse("café", charset="latin-1"), 0)
     add("HTML", lambda i, e: pkg(i).HTMLResponse("<p>é</p>", 201, {"X-A": "1"}), 0)
+    add("PlainText(media_type text/csv)", lambda i, e: pkg(i).PlainTextResponse("a,b", media_type="text/csv"), 0)
+    add("HTML(media_type xhtml)", lambda i, e: pkg(i).HTMLResponse("<p/>", 200, None, "application/xhtml+xml"), 0)
+    add("JSON(dumps options)", lambda i, e: pkg(i).JSONResponse({"b": 1, "a": [1, 2]}, 422, None, sort_keys=True, indent=1), 0)
+    add("HTML(charset latin-1, own Content-Type header)", lambda i, e: pkg(i).HTMLResponse("<p>x</p>", 200, {"Content-Type": "text/html; charset=iso-8859-1"}, charset="latin-1"), 0)
     add("JSON", lambda i, e: pkg(i).JSONResponse({"a": "é", "n": [1, 2, None]}), 0)
     add("JSON(799)", lambda i, e: pkg(i).JSONResponse([1], 799), 0)
     add("Redirect", lambda i, e: pkg(i).RedirectResponse("/café?x=1&y=中#f"), 0)
